@@ -1,12 +1,13 @@
 (* C09 run_case: model + spec oracles for the harness.
    L [I 0; pag]              -> L [graph m; structure_ok]                       m = pag_to_mag_model pag
-   L [I 1; pag; mag0]        -> L [graph m; L verdicts]                         verdicts of m against pag and the source MAG
+   L [I 1; pag; mag0]        -> L [graph m; L verdicts; L [pag_hypsb pag; rounds_ok_b pag]]   verdicts of m against pag and the source MAG,
+                                                                                 and the hypotheses of p2m_shape_all_sizes on pag
    L [I 2; pag; mag0; m]     -> L [L verdicts]                                  verdicts of a GIVEN graph m (the implementation's result)
    L [I 3; mag0]             -> L [valid_mag_spec mag0; graph (pag_of_mag mag0)]
    L [I 4; pag; m]           -> L [structure_ok pag m]                          structural clauses of a GIVEN graph m
    verdicts = [structure_ok; acyclic; no almost directed cycle; unshielded colliders marked in pag; valid_mag_spec; markov_equiv mag0] *)
 From Coq Require Import List Arith Bool.
-From PG Require Import Base.ListSet Base.Sx Graph.MGraph C08.Model C09.Model C09.Oracle.
+From PG Require Import Base.ListSet Base.Sx Graph.MGraph C08.Model C09.Model C09.Oracle C09.HypsB.
 Import ListNotations.
 
 Definition verdicts (g m0 m : mgraph) : sx :=
@@ -17,7 +18,8 @@ Definition run_case (s : sx) : sx :=
   let g := sx_graph (sx_nth s 1) in
   match sx_nat (sx_nth s 0) with
   | 0 => let m := pag_to_mag_model g in L [of_graph m; of_bool (structure_ok g m)]
-  | 1 => let m := pag_to_mag_model g in L [of_graph m; verdicts g (sx_graph (sx_nth s 2)) m]
+  | 1 => let m := pag_to_mag_model g in
+         L [of_graph m; verdicts g (sx_graph (sx_nth s 2)) m; L [of_bool (pag_hypsb g); of_bool (rounds_ok_b g)]]
   | 2 => L [verdicts g (sx_graph (sx_nth s 2)) (sx_graph (sx_nth s 3))]
   | 3 => L [of_bool (valid_mag_spec g); of_graph (pag_of_mag g)]
   | _ => L [of_bool (structure_ok g (sx_graph (sx_nth s 2)))]
